@@ -79,6 +79,11 @@ def slice_def(u, name, tier):
                 calls.append(u.call(e, t, "default"))
         f0, f = exportlib.free_alphabet(calls)
         return dict(calls=calls, follow0=f0, follow=f, maxlen=2 if q else 3, init="stale", strict=True, confl="C06")
+    if name == "casepaths":           # C06: locations that differ only in letter case are different locations
+        tys = ["TwinUp", "TwinLow", "TwinDir"]
+        calls = [u.call("export", t, "default") for t in tys] + [u.call("export_all", "TwinLow", "default"), u.call("export_all_to", "TwinUp", "abs")]
+        f0, f = exportlib.free_alphabet(calls)
+        return dict(calls=calls, follow0=f0, follow=f, maxlen=3, init="stale", strict=True, confl="C06")
     if name == "prev":                # C06: the directory a previous process left behind
         return prev_slice(u, tier)
     if name == "faults":              # C17: one obstacle before one call, removed, call retried
